@@ -5,7 +5,7 @@ From NDN Require Import Base.Prelude Model.TlvVar Model.Name Model.Tlv Model.Pac
   Proofs.BytesLemmas Proofs.TlvVarProofs Proofs.NameWire Proofs.TlvSplit Proofs.TlvAssign Proofs.TlvRoundtrip
   Proofs.TlvRoundtrip2 Proofs.TlvMore Proofs.PacketRoundtrip.
 Local Open Scope N_scope.
-Set Default Timeout 30.
+Set Default Timeout 900.
 
 Arguments N.of_nat : simpl never.
 Arguments N.to_nat : simpl never.
